@@ -464,13 +464,29 @@ from aas_core_meta.marker import (
 """
 
 
-def render(spec: Spec) -> str:
+def canonical_order(spec: Spec) -> List[Tuple[str, str]]:
+    """Definition order in which every base precedes its descendants (executable as Python)."""
+    items = []  # type: List[Tuple[str, str]]
+    items += [("enum", e.name) for e in spec.enums]
+    items += [("fn", f.name) for f in spec.fns]
+    items += [("cp", c.name) for c in spec.cps]
+    items += [("const", c.name) for c in spec.consts]
+    items += [("class", c.name) for c in spec.classes]
+    return items
+
+
+def render(spec: Spec, canonical: bool = False) -> str:
+    """``canonical``: bases first (for executing the text); otherwise in ``spec.order``, which may define a
+    class or constrained primitive before its bases (the front end reads the file with ``ast``, it does not run it)."""
     lines = []  # type: List[str]
     if spec.module_doc is not None:
         lines.extend(_doc(spec.module_doc, ""))
         lines.append("")
     lines.append(HEADER)
-    for kind, name in spec.order:
+    order = spec.order
+    if canonical and sorted(order) == sorted(canonical_order(spec)):
+        order = canonical_order(spec)
+    for kind, name in order:
         if kind == "enum":
             lines.extend(render_enum(spec.enum(name)))
         elif kind == "cp":
@@ -515,8 +531,11 @@ class Opts:
     float_props: bool = True
     bytes_props: bool = True
     weird_values: bool = False  # nan/inf/huge ints in constants
+    forward_bases: float = 0.0  # probability that constrained primitives are defined without regard to their bases
     patterns: Optional[Any] = None  # strategy for anchored patterns (else a small built-in pool)
     class_weight: int = 1  # relative weight of class-typed properties / list items
+    cp_chain: float = 0.0  # probability that a constrained primitive derives from the previous one (long chains)
+    cp_weight: int = 2  # relative weight of properties / list items typed by a constrained primitive
     max_consts: int = 3
     max_literals: int = 4
     defaults: bool = False  # non-optional primitive/enum properties may get a constructor default
@@ -670,13 +689,18 @@ def specs(draw: Any, opts: Opts = Opts()) -> Spec:
                                examples=list(PATTERN_EXAMPLES.get(pat, []))))
 
     # ---- constrained primitives (DAG per primitive) ----
-    n_cps = draw(st.integers(0, opts.max_cps))
+    n_cps = draw(st.integers(min(2, opts.max_cps) if opts.cp_chain > 0 else 0, opts.max_cps))
     prims_for_cp = [p for p in PRIMS if (p != "float" or opts.float_props) and (p != "bytearray" or opts.bytes_props)]
     for nm in _names(draw, TYPE_WORDS, ["_str", "_code", "_text", "_num", "_non_empty_XML_serializable_text_value"], n_cps, taken):
         prim = draw(st.sampled_from(prims_for_cp + ["str", "str"]))
+        chain = opts.cp_chain > 0 and bool(spec.cps) and draw(st.floats(0, 1)) < opts.cp_chain
+        if chain:
+            prim = spec.cps[-1].prim
         same = [c for c in spec.cps if c.prim == prim]
         bases = []  # type: List[str]
-        if same and draw(st.booleans()):
+        if chain:
+            bases = [spec.cps[-1].name]
+        elif same and draw(st.booleans()):
             k = draw(st.integers(1, min(2, len(same))))
             idx = draw(st.lists(st.integers(0, len(same) - 1), min_size=k, max_size=k, unique=True))
             bases = [same[i].name for i in sorted(idx)]
@@ -777,7 +801,7 @@ def specs(draw: Any, opts: Opts = Opts()) -> Spec:
     def draw_type(depth: int = 0) -> TRef:
         kinds = ["prim", "prim", "prim"]
         if spec.cps:
-            kinds += ["cp", "cp"]
+            kinds += ["cp"] * opts.cp_weight
         if spec.enums:
             kinds.append("enum")
         kinds += ["class"] * opts.class_weight
@@ -850,7 +874,8 @@ def specs(draw: Any, opts: Opts = Opts()) -> Spec:
     items += [("cp", c.name) for c in spec.cps]
     items += [("const", c.name) for c in spec.consts]
     items += [("class", c.name) for c in spec.classes]
-    spec.order = _shuffle_respecting(draw, spec, items)
+    free_bases = opts.forward_bases > 0 and draw(st.floats(0, 1)) < opts.forward_bases
+    spec.order = _shuffle_respecting(draw, spec, items, free_bases)
     spec.module_doc = _plain_doc(draw, opts)
     return spec
 
@@ -909,16 +934,19 @@ def _deps(spec: Spec, item: Tuple[str, str]) -> List[Tuple[str, str]]:
     return []
 
 
-def _shuffle_respecting(draw: Any, spec: Spec, items: List[Tuple[str, str]]) -> List[Tuple[str, str]]:
-    """Random linear extension of the dependency order."""
+def _shuffle_respecting(draw: Any, spec: Spec, items: List[Tuple[str, str]], free_bases: bool = False) -> List[Tuple[str, str]]:
+    """Random linear extension of the dependency order (``free_bases``: bases of constrained primitives do not count;
+    a class defined before a base with properties is refused by the front end - constructor in-lining goes by
+    definition order - so classes always follow their bases)."""
     remaining = list(items)
     placed = []  # type: List[Tuple[str, str]]
     placed_set = set()  # type: set
-    keep_groups = draw(st.booleans())
+    keep_groups = (not free_bases) and draw(st.booleans())
     if keep_groups:
         return items
     while remaining:
-        ready = [it for it in remaining if all(d in placed_set for d in _deps(spec, it))]
+        ready = [it for it in remaining
+                 if all(d in placed_set for d in _deps(spec, it) if not (free_bases and it[0] == "cp"))]
         pick = ready[draw(st.integers(0, len(ready) - 1))]
         remaining.remove(pick)
         placed.append(pick)
